@@ -98,7 +98,7 @@ fn check_dryoc_string(cx: &mut Ctx, origin: &str, s: &str, pw: &[u8], alg_used: 
     }
     // second opinion: re-hash with what the string says (libsodium's Argon2 core) and compare with the encoded hash
     if d.alg == "argon2i" || d.alg == "argon2id" {
-        if d.salt.len() >= 8 && d.hash.len() >= 16 && d.m >= 8 && d.m <= 4096 && d.t >= 1 && d.t <= 8 {
+        if d.salt.len() >= 8 && d.hash.len() >= 16 && d.m >= 8 && d.m <= 4096 && d.t >= 1 && (d.t <= 8 || d.m <= 16 && d.t <= 600) {
             let re = na::argon2_raw(d.alg == "argon2id", d.t, d.m, pw, &d.salt, d.hash.len());
             cx.eval();
             if re.as_deref() != Some(&d.hash[..]) {
@@ -196,8 +196,8 @@ fn check_under_dryoc(cx: &mut Ctx, origin: &str, s: &str, pw: &[u8], rng: &mut c
 /// valid strings with arbitrary (not hashable in reasonable time) cost fields: parse -> re-encode must be the identity
 /// and needs_rehash must follow the rule; no hash is computed, so every u32 cost is in reach
 fn parse_only(cx: &mut Ctx, idx0: &mut u64) {
-    const M: [u32; 16] = [8, 9, 1023, 1024, 65535, 65536, 1 << 20, (1 << 22) - 1, 1 << 22, (1 << 22) + 1, 1 << 24, (1 << 31) - 1, 1 << 31, (1 << 31) + 1, u32::MAX - 1, u32::MAX];
-    const T: [u32; 12] = [1, 2, 3, 255, 256, 65535, 65536, (1 << 31) - 1, 1 << 31, (1 << 31) + 1, u32::MAX - 1, u32::MAX];
+    const M: [u32; 19] = [8, 9, 80, 81, 800, 1023, 1024, 65535, 65536, 1 << 20, (1 << 22) - 1, 1 << 22, (1 << 22) + 1, 1 << 24, (1 << 31) - 1, 1 << 31, (1 << 31) + 1, u32::MAX - 1, u32::MAX];
+    const T: [u32; 16] = [1, 2, 3, 10, 12, 19, 123, 255, 256, 65535, 65536, (1 << 31) - 1, 1 << 31, (1 << 31) + 1, u32::MAX - 1, u32::MAX];
     let nrand = cx.tier.pick(2usize, 200, 20_000);
     let total = M.len() * T.len() + nrand;
     for i in 0..total {
@@ -230,7 +230,12 @@ fn parse_only(cx: &mut Ctx, idx0: &mut u64) {
             }
         }
         // needs_rehash: rule, and libsodium's own answer for its string shape
-        for (ops, mem_kib) in [(t as u64, m as u64), (t as u64 + 1, m as u64), (t as u64, m as u64 + 1), (t as u64, (m as u64) ^ (1 << 22)), ((t as u64) ^ (1 << 31), m as u64), (t.max(2) as u64 - 1, m as u64)] {
+        // ... and costs whose decimal text is a prefix / an extension of the stored one (10 vs 1, 123 vs 12, 8 vs 80)
+        for (ops, mem_kib) in [(t as u64, m as u64), (t as u64 + 1, m as u64), (t as u64, m as u64 + 1), (t as u64, (m as u64) ^ (1 << 22)), ((t as u64) ^ (1 << 31), m as u64), (t.max(2) as u64 - 1, m as u64),
+            (t as u64 / 10, m as u64), (t as u64 / 100, m as u64), (t as u64 * 10, m as u64), (t as u64 * 10 + 7, m as u64), (t as u64, m as u64 / 10), (t as u64, m as u64 * 10), (t as u64, m as u64 * 10 + 3)] {
+            if ops > u32::MAX as u64 * 4 || mem_kib > (1u64 << 34) {
+                continue;
+            }
             if ops == 0 || mem_kib < 8 {
                 continue;
             }
@@ -327,9 +332,13 @@ pub fn run(cx: &mut Ctx) {
                 }
             }
         }
-        let ops = rng.range(1, 4) as u64;
+        // mostly 1..4 passes; one case in 12 uses a pass count beyond 2^8 with a small memory (cheap, and past the width of a byte)
+        let big_t = rng.chance(1, 12);
+        let ops = if big_t { *rng.pick(&[256u64, 257, 300, 513]) } else { rng.range(1, 4) as u64 };
         // mostly small; one case in 16 has segments longer than one address block (128) and not a multiple of it
-        let mem_kib = if rng.chance(1, 16) { *rng.pick(&[516usize, 600, 1000, 1500]) } else { *rng.pick(&[8usize, 9, 16, 31, 64, 128, 256]) };
+        let mem_kib = if big_t {
+            *rng.pick(&[8usize, 9, 16])
+        } else if rng.chance(1, 16) { *rng.pick(&[516usize, 600, 1000, 1500]) } else { *rng.pick(&[8usize, 9, 16, 31, 64, 128, 256]) };
         let memlimit = mem_kib * 1024 + if rng.chance(1, 3) { rng.below(1024) } else { 0 };
         cx.cover("opslimit", &format!("{}", ops));
         cx.cover("mem_kib", &format!("{}", mem_kib));
